@@ -380,6 +380,18 @@ def parse (g : Cfg) (e : Env) (s : S) (data : Bytes) : PR :=
     let s := { s with cache := s.cache ++ data }
     frameLoop g e (s.cache.length + 1) s []
 
+/-- feeding segments one Parse call at a time; stops at the first error (the engine closes the connection) -/
+def feed (g : Cfg) (e : Env) : S → List Bytes → List Act → PR
+  | s, [], acts => ⟨s, acts, none⟩
+  | s, seg :: segs, acts =>
+    match (parse g e s seg).err with
+    | some er => ⟨(parse g e s seg).s, acts ++ (parse g e s seg).acts, some er⟩
+    | none => feed g e (parse g e s seg).s segs (acts ++ (parse g e s seg).acts)
+
+/-- what can be observed of a result: the actions, the error, what Parse keeps besides the unparsed bytes, and
+    the unparsed bytes while the connection lives -/
+def PR.obs (r : PR) : List Act × Option Err × K × Option Bytes := (r.acts, r.err, r.s.k, if r.err.isNone then some r.s.cache else none)
+
 /-- an application `WriteMessage` on this endpoint -/
 def appWrite (g : Cfg) (e : Env) (s : K) (opcode : Nat) (data : Bytes) : K × Except Err (List Bytes) :=
   match writeMessage g e s.nwrites opcode data with
